@@ -651,19 +651,25 @@ spifconf_shell_expand(spif_charptr_t s)
                   EnvVar = (spif_charptr_t) MALLOC(128);
                   switch (*(++pbuff)) {
                     case '{':
-                        for (pbuff++, k = 0; *pbuff != '}' && k < 127; k++, pbuff++)
+                        for (pbuff++, k = 0; *pbuff && *pbuff != '}' && k < 127; k++, pbuff++)
                             EnvVar[k] = *pbuff;
                         break;
                     case '(':
-                        for (pbuff++, k = 0; *pbuff != ')' && k < 127; k++, pbuff++)
+                        for (pbuff++, k = 0; *pbuff && *pbuff != ')' && k < 127; k++, pbuff++)
                             EnvVar[k] = *pbuff;
                         break;
                     default:
                         for (k = 0; (isalnum(*pbuff) || *pbuff == '_') && k < 127; k++, pbuff++)
                             EnvVar[k] = *pbuff;
+                        /* No closing delimiter to swallow here; look at this character again. */
+                        pbuff--;
                         break;
                   }
                   EnvVar[k] = 0;
+                  if (!*pbuff) {
+                      /* Unterminated ${ or $( -- stay on the last character of the input. */
+                      pbuff--;
+                  }
                   tmp = (spif_charptr_t) getenv((char *) EnvVar);
                   if (tmp && *tmp) {
                       spiftool_safe_strncpy(newbuff + j, tmp, max - j);
@@ -674,7 +680,6 @@ spifconf_shell_expand(spif_charptr_t s)
                       /* Nothing was produced for this reference; do not leave a hole in the output. */
                       j--;
                   }
-                  pbuff--;
               } else {
                   newbuff[j] = *pbuff;
               }
